@@ -6,6 +6,7 @@
 
 mod exec;
 mod gen;
+mod tables;
 mod util;
 mod words;
 
@@ -36,6 +37,9 @@ fn main() {
                 out.write_all(r.as_bytes()).unwrap();
                 out.write_all(b"\n").unwrap();
             }
+        }
+        Some("tables") => {
+            print!("{}", tables::dump());
         }
         Some("info") => {
             println!(
